@@ -72,6 +72,8 @@ pub fn run_c08(chk: &Check, tier: Tier) {
             // judged) from every state of a small-domain companion system
             let mut small = c08_system("C08", c, Report { oracle: true, ..Default::default() }, &[0, 1, 127]).with_pumps(&[0, 1, 31, 32, 33, 63, 64], 3);
             small.storms = vec![(256, false)];
+            // the 7 + 49 cycles of length <= 2 also with 70000 rounds (16-bit counters driven by feeds)
+            small.long_pumps = 56;
             let o2 = xs::explore(&small, &Limits::default());
             engine::record(chk, &small, &o2, None);
         }
